@@ -304,3 +304,96 @@ func (m *table) BadElemWhole() int {
 }
 func (m *table) BadOpaqueField() uint64 { return m.seed.K }
 func BadKeyedArg(s ext.Seed) uint64     { return ext.Keyed(s, "x") }
+
+// slices with capacity, struct state, the allocator (phase 4): the sharing discipline and the
+// constructs outside the subset
+type src interface{ Read(p []byte) (int, error) }
+type cstats struct {
+	b [4]int
+	i int
+}
+type cbuf struct {
+	buf    []byte
+	other  []byte
+	parked [][]byte
+	rd     src
+	st     cstats
+}
+type cemb struct {
+	cstats
+	buf []byte
+}
+
+// a local alias of the field is stored into while the field is live
+func (c *cbuf) BadAliasStore() byte {
+	x := c.buf[1:]
+	x[0] = 1
+	return c.buf[1]
+}
+
+// the field is stored into while a local alias is live
+func (c *cbuf) BadStoreUnderAlias(v []byte) int {
+	x := c.buf[1:]
+	copy(c.buf, v)
+	return len(x)
+}
+
+// two fields are left sharing one backing array
+func (c *cbuf) BadTwoFieldsShare() { c.other = c.buf[:2] }
+
+// the buffer is parked but stays the current buffer
+func (c *cbuf) BadParkNoReplace() int {
+	c.parked = append(c.parked, c.buf)
+	return len(c.parked)
+}
+
+// a store through the range variable over the parked buffers
+func (c *cbuf) BadRangeStore(v []byte) int {
+	n := 0
+	for _, b := range c.parked {
+		n += copy(b, v)
+	}
+	return n
+}
+
+// the window handed to Read while an alias is live
+func (c *cbuf) BadReadUnderAlias() int {
+	x := c.buf[:1]
+	m, _ := c.rd.Read(c.buf[len(c.buf):cap(c.buf)])
+	return m + len(x)
+}
+
+func (c *cbuf) BadAppendCS() int {
+	c.buf = append(c.buf, 1)
+	return len(c.buf)
+}
+func (c *cbuf) BadThreeIndex() int { return len(c.buf[0:1:2]) }
+func (c *cbuf) BadFieldWhole() int {
+	p := c.parked
+	return len(p)
+}
+func (c *cbuf) BadArrayWhole() int {
+	a := c.st.b
+	return a[0]
+}
+
+// the literal leaves the interface-typed field nil: no state to give it
+func (c *cbuf) BadNilIfaceField(b []byte) { *c = cbuf{buf: b} }
+
+// the interface-typed parameter is used besides being stored
+func (c *cbuf) BadMovedParamUse(rd src, b []byte) int {
+	*c = cbuf{rd: rd}
+	m, _ := rd.Read(b)
+	return m
+}
+func (c *cbuf) BadNestedDest(v []byte) int { return copy(c.buf[1:3][0:1], v) }
+func (c *cbuf) BadCapOfCSL() int           { return cap(c.parked) }
+
+// the allocator outside a method of a struct with slices with capacity
+func BadAllocOutside(n int) int { return len(ext.Alloc(n)) }
+
+// an embedded struct
+func (c *cemb) BadEmbedded() int { return len(c.buf) }
+
+// the literal reads the receiver
+func (c *cbuf) BadLiteralReadsRecv() { *c = cbuf{buf: c.other, rd: c.rd} }
